@@ -9,7 +9,7 @@ use crate::refcose::{RegTy, Ty, REG_TYS};
 use crate::refiana::Reg;
 use serde_json::json;
 
-pub const CHECKS: Checks = Checks { iff: true, kind_range: true, fixed_point: true, det_output: true, same_item: true, ..Checks::NONE };
+pub const CHECKS: Checks = Checks { iff: true, kind_range: true, fixed_point: true, same_item: true, ..Checks::NONE };
 
 pub fn run(rep: &Report) -> u64 {
     rep.set_rule("C15: every integer of the boundary lattice +-(2^e+d), e in 0..64, d in -2..2 clipped to [-2^64, 2^64-1], plus a window around 0 (quick +-300, thorough +-70000), at every interpreting position and as the value of an extra parameter/claim, under every head width >= minimal (bignum form: no-crash only); accept/reject, decoded value, out-of-range error kind and the integer read back from the re-encoding are compared with the reference; non-trivial = must-accept or single-fault; distinct by bytes");
